@@ -115,9 +115,9 @@ func c20Build(root c20Root, chain []int, inj c20Inj) (src string, errLine int, l
 
 func runC20(tier string) int {
 	r := harness.NewRun("C20", "exploration", tier, budget(tier, 50*time.Second, 10*time.Minute))
-	maxDepth := 3
+	maxDepth := 4
 	if tier == "thorough" {
-		maxDepth = 4
+		maxDepth = 5
 	}
 	// all chains of depth <= maxDepth
 	var chains [][]int
